@@ -138,6 +138,7 @@ Theorem C03_teardown_in_setup_order_refuted :
   rbegins (run_teardown_funcs (fun _ => IGlobal) None kept r_init) = [OFxTeardown 2; OFxTeardown 1] /\
   rbegins (run_teardown_funcs (fun _ => IGlobal) None kept r_init) <> teardowns_of kept.
 Proof. exact forward_order_refuted. Qed.
+Print Assumptions C03_teardown_in_setup_order_refuted.
 Example C03_failing_setup_witness :
   let '(r1, kept) := run_setup_funcs (fun _ => IGlobal) None three_fixtures_second_fails r_init [] in
   rbegins r1 = [OFxSetup 1; OFxSetup 2] /\ rs_failed r1 = true /\
